@@ -10,3 +10,13 @@ def lemma_rows_get_distinct_seeds(random_state, i, j, meta_entries):
     a = prepare_seed(random_state=random_state, index_in_batch=i, **meta_entries)
     b = prepare_seed(random_state=random_state, index_in_batch=j, **meta_entries)
     return a[1]['seed'], b[1]['seed']
+
+
+def lemma_seed_follows_generator_state(random_state, i, meta_entries):
+    """the same generator OBJECT is used twice; between the calls its state changes (ghost statement: re-seeded or
+    advanced).  ensures: each seed is sub_seed(state word AT THAT CALL, row index) - a function of the generator's
+    state, not of the identity of the generator object."""
+    a = prepare_seed(random_state=random_state, index_in_batch=i, **meta_entries)
+    generator_changes_state(random_state)
+    b = prepare_seed(random_state=random_state, index_in_batch=i, **meta_entries)
+    return a[1]['seed'], b[1]['seed']
